@@ -1,7 +1,7 @@
 \* C12: every loop / function program under all 8 (unroll_loops, inline_functions, expand_mx) option sets, INTENDED
 \* switches; the invariants hold for every option set with the same declarative value.
 CONSTANTS Family = "opt" Tier = "quick"
-  DivMapped = TRUE SlicesRangeChecked = TRUE LoopIndexRangeChecked = TRUE PartialSubscriptIsRow = TRUE CallFirstOutput = TRUE StepRangeParsed = TRUE IfStmtSequential = TRUE ExploreOptions = TRUE
+  DivMapped = TRUE SlicesRangeChecked = TRUE LoopIndexRangeChecked = TRUE PartialSubscriptIsRow = TRUE CallFirstOutput = TRUE StepRangeParsed = TRUE RangeStopExact = TRUE IfStmtSequential = TRUE ExploreOptions = TRUE
 INIT Init
 NEXT Next
 INVARIANT WellTyped
